@@ -174,6 +174,11 @@ def run(ctx):
     for ln in lines[:: max(1, len(lines) // 3)][:3]:
         ctx.sample({k: v for k, v in ln.items() if k not in ("oid",)})
     bad = ctx.tlc_validate("Trace_C10", "Trace.cfg", [{k: v for k, v in ln.items() if k != "note"} for ln in lines])
+    ctx.selftest("Trace_C10", "Trace.cfg", [{k: v for k, v in ln.items() if k not in ('note',)} for ln in lines if ln["oid"] not in bad and (True)], [
+        ("resid", lambda l: dict(l, resid_milli=2000) if l["what"] in ("formula", "continuity") else None),
+        ("terms", lambda l: dict(l, terms=l["terms"][:-1]) if l["what"] == "formula" else None),
+        ("accepted", lambda l: dict(l, outcome="OK") if l["what"] == "rejection" else None),
+        ("crash", lambda l: dict(l, outcome="Crash_IndexError"))])
     by = {ln["oid"]: ln for ln in lines}
     for oid, clause in bad.items():
         ln = by[oid]
